@@ -372,6 +372,7 @@ def run(tier: str, seed: int, replay=None) -> int:
         "harness/c16.py (+ the schema extraction of harness/c15.py): case builders through the public API including the genuine `o.f += v` / `o.f |= v` statements, canonicaliser",
         "CPython list/set builtins (list.__iadd__, set.__ior__, list.insert, list.__setitem__) as described by Onto/ContainerSpec.v",
     ]
+    rep.trusted.append("source pins pins/onto.json (pin set pins/sets/onto.json): the normalised source of the 57 methods the hand models Onto/Closure.v and Onto/Container.v mirror is compared on every run; an edit reopens the correspondence obligation")
     rep.assume = [
         "the field is written by its owner with fresh arguments (lists, sets, generators) or with itself for assignment / += / |=; "
         "K_ctor_alias (another object's managed container given to a constructor, C16-d) is outside the fragment (known finding with a _refuted theorem)",
@@ -386,6 +387,8 @@ def run(tier: str, seed: int, replay=None) -> int:
     ok_spec, log = core.coq_make(["Base/Sx.vo", "Onto/ContainerSpec.vo", "Onto/ClosureSpec.vo"])
     rep.oblige("build:spec", ok_spec, "" if ok_spec else core.first_error(log))
     model_ok = core.standard_proof_steps(rep, PROP, ["Props/C16.vo"])
+    from translator import pins
+    pins.oblige(rep, str(core.REPO), "onto", "the hand model Onto/Container.v (__set__/__get__/_ensure_monitored_type, MonitoredList / MonitoredSet, make_list / make_set)")
     if not ok_spec:
         return rep.finish()
 
